@@ -805,7 +805,6 @@ pub fn hazards(p: &Prog, evals: &[ProbeEval]) -> Vec<&'static str> {
     // every explicit import in the file: (name, what it denotes)
     let mut explicit: Vec<(String, Option<(Path, String)>)> = vec![];
     let mut wild_targets: Vec<Path> = vec![];
-    let mut legal_names: BTreeSet<String> = BTreeSet::new();
     for mp in &paths {
         let m = p.module(mp).unwrap();
         for (i, u) in m.uses.iter().enumerate() {
@@ -818,9 +817,6 @@ pub fn hazards(p: &Prog, evals: &[ProbeEval]) -> Vec<&'static str> {
             for n in &u.names {
                 let id = lenient.use_target(mp, i, n, 0, &mut Trace::default()).ok().map(|h| h.fnid);
                 explicit.push((n.clone(), id));
-                if (Model { p, all_pub: false }).use_target(mp, i, n, 0, &mut Trace::default()).is_ok() {
-                    legal_names.insert(n.clone());
-                }
             }
         }
     }
@@ -833,9 +829,17 @@ pub fn hazards(p: &Prog, evals: &[ProbeEval]) -> Vec<&'static str> {
         if explicit.iter().any(|(m, id)| m == n && *id != e.target) {
             out.push("alias");
         }
-        // an illegal unqualified reference can be rescued by any legal import of that name
-        // anywhere in the file (even of the same function)
-        if e.res.is_err() && legal_names.contains(n) {
+        // an illegal unqualified reference is rescued by an import of that name anywhere in the
+        // file whose function is itself accessible (only the final function is checked there)
+        if e.res.is_err()
+            && explicit.iter().any(|(m, id)| {
+                m == n
+                    && id.as_ref().is_some_and(|fid| {
+                        let f = p.module(&fid.0).unwrap().fns.iter().find(|f| f.name == fid.1).unwrap();
+                        f.public || within(&e.pos, &fid.0)
+                    })
+            })
+        {
             out.push("alias");
         }
         if e.trace.via_wild {
